@@ -314,13 +314,26 @@ pub fn run(ctx: &Ctx, rep: &mut Report) {
     rep.stats.terminals = jobs.len() as u64;
     rep.set("split_graph_states", json!(split_states));
     rep.set("split_graph_transitions", json!(split_edges));
+    let mut reported_baselines: BTreeSet<usize> = BTreeSet::new();
     for (j, r) in jobs.iter().zip(res.iter()) {
         let s = &seeds[j.seed];
         let text = format!("{} {} #[derive_ex({})] {}", j.kind, j.entry.name(), j.attr, j.item);
         let base = match &bases[j.seed] {
             Ok(b) => b,
-            Err(_) => {
+            Err(e) => {
                 rep.case(&text, false);
+                if s.origin == "gen:failing-sibling" {
+                    // one listed trait cannot be generated for this item: that is ITS error - the impl of every other
+                    // trait must be what it is without that trait in the list
+                    if reported_baselines.insert(j.seed) {
+                        let mut atoms = BTreeSet::new();
+                        atoms.insert("kind=failing-sibling".to_string());
+                        atoms.insert("group=failing-sibling".to_string());
+                        rep.outcome("failing-sibling:takes-the-others-with-it");
+                        rep.violation(Violation { symptom: "co-listed-trait-changes-impl".into(), atoms, what: format!("#[derive_ex({})] {}: the expansion is not one item per listed trait ({}): a trait that cannot be generated takes the impls of the others with it", s.attr, s.item, e.lines().next().unwrap_or("")), detail: json!({"kind": "failing-sibling", "entry": "attr", "attr": s.attr, "item": s.item}), standalone: None });
+                    }
+                    continue;
+                }
                 rep.outcome("skipped:baseline-not-per-trait");
                 continue;
             }
